@@ -131,6 +131,12 @@ def build_unit(u, wd, defs):
             if not hit:
                 raise Undecided("extraction: no line matches %s in %s" % (rx, ex["file"]))
             parts += hit
+        if ex.get("prototypes"):
+            # a prototype for every other static function of the file (their bodies are dropped; the unit's spec header
+            # defines the ones it gives a meaning to, the rest have no body: CBMC treats their results as arbitrary)
+            for m in re.finditer(r"^(static [A-Za-z_][\w \*]*?\b(\w+)\([^;{]*\))\n\{\n", src, re.M):
+                if m.group(2) not in ex["functions"]:
+                    parts.append(m.group(1) + ";")
         for fn in ex["functions"]:
             m = re.search(r"^(?:static )?[A-Za-z_][\w \*]*?\b" + re.escape(fn) + r"\([^;{]*\)\n\{\n.*?^\}\n", src, re.M | re.S)
             if not m:
@@ -190,6 +196,9 @@ def build_unit(u, wd, defs):
 
 def cbmc_flags(u, tier):
     fl = list(CHECK_FLAGS)
+    if u.get("assertions_only"):
+        # units whose callees have no body (arbitrary results): only the stated clauses are decided, no memory-safety claim
+        fl = ["--no-standard-checks", "--no-malloc-may-fail", "--drop-unused-functions"]
     if u.get("no_overflow_check"):
         fl = [f for f in fl if f != "--signed-overflow-check"] + ["--no-signed-overflow-check"]
     if tier == "thorough":
@@ -282,9 +291,21 @@ def run_variant(u, tier, defs, label):
         r.update(info)
         t0 = time.time()
         props = list_props(gb, u, tier)
+        only = u.get("only_properties")
+        if only:
+            # units whose callees have no body: only the clauses stated in the unit's own harness and stubs (and the
+            # unwinding assertions) are decided; obligations that depend on arbitrary callee results are not generated claims
+            props = [p for p in props if re.search(only, p["name"])]
+            if not props:
+                raise Undecided("only_properties matches nothing")
         groups = group_props(props, u)
         results = []
-        if groups:
+        if only and not groups:
+            results, t, cmd = solve(gb, u, tier, props=[p["name"] for p in props])
+            want = set(p["name"] for p in props)
+            results = [x for x in results if x["property"] in want]
+            r["checker_cmd"] = cmd.split(" --property")[0] + " --property <the unit's clauses> " + gb
+        elif groups:
             r["sliced"] = {}
             with cf.ThreadPoolExecutor(max_workers=u.get("slice_jobs", 4)) as ex:
                 futs = {ex.submit(solve, gb, u, tier, names): k for k, names in groups.items()}
